@@ -155,7 +155,7 @@ class Ctx:
 
     def textlen(self, width, variable=False):
         t = self.textcfg
-        if t.startswith("s"):
+        if t.startswith("s") or t == "tc":
             return min(3, width)
         if t == "t0":
             return 0
@@ -248,6 +248,8 @@ def rust_any(ctx, d, count=None):
     if k == "dur":
         return "dur_menu_%s(%d)" % (d[2], d[3])
     if k == "str":
+        if ctx.textcfg == "tc":
+            return "String::from(\"%s\")" % "abc"[:str_len(ctx, d)]
         return "ascii_string::<%d>()" % str_len(ctx, d)
     if k == "strv":
         return "ascii_string::<%d>()" % ctx.textlen(d[2], True)
@@ -701,6 +703,8 @@ def kind_configs(variant, descs):
     elif has_text:
         maxw = max([d[2] for d in descs if d[0] == "str"] + [32 if "HostInfo" in str(descs) else 0])
         texts = ["t3"] + (["tf"] if maxw <= 24 else []) + (["t0"] if variant in ("Cpr", "Isi", "Mst") else [])
+    # (a configuration with concrete, pinned text was tried for Res/Rip/Npl/relay host lists: it does not close either -
+    # the text content is not what makes these queries dear)
     counts = [None]
     if vec:
         counts = [1, 2, 0]
@@ -864,6 +868,9 @@ def generate(repo):
                      "#[kani::stub(insim_core::string::codepages::to_lossy_string, stub_to_lossy_string)]\n"
                      "#[kani::stub(insim_core::string::codepages::to_lossy_bytes, stub_to_lossy_bytes)]\n"
                      "#[kani::stub(std::hash::RandomState::new, stub_random_state)]\n")
+            if variant == "Mso":
+                # IS_MSO's reader assembles the message with format!("{name}{msg}"): formatting is on the data path here
+                stubs = stubs.replace("#[kani::stub(alloc::fmt::format, stub_format)]\n", "")
             hdr = "#[kani::proof]\n#[kani::unwind(%d)]\n%s" % (unwind, stubs)
             W = frame_w - 1  # bytes written by Packet::write_le: type + body (+ alignment)
             BUF = W + 12
@@ -898,6 +905,12 @@ def generate(repo):
                     extra_pins += [(bo + j, 0) for j in range(wd)]
                 if d[0] == "special" and d[2] == "PlcCars":
                     extra_pins += [(bo + j, 0) for j in range(4)]
+                if tc == "tc" and d[0] == "str":
+                    txt = "abc"[:str_len(ctx, d)]
+                    extra_pins += [(bo + j, ord(txt[j]) if j < len(txt) else 0) for j in range(wd)]
+                if tc == "tc" and d[0] == "vec" and "HostInfo" in str(d):
+                    for e in range(cnt or 0):
+                        extra_pins += [(bo + 40 * e + j, ord("abc"[j]) if j < 3 else 0) for j in range(32)]
                 bo += wd
             for (bo, val) in extra_pins:
                 pin_out += "    assert!(out[%d] == %d, \"C01:pinned byte (sub-type / empty raw text / empty car word) has its expected value\");\n    out[%d] = %d;\n" % (bo + 1, val, bo + 1, val)
@@ -977,7 +990,7 @@ def generate(repo):
                     t2 = tier
                 index.append(dict(name="%s_%s" % (prop, tag), prop=prop.upper(), tier=t2, unwind=unwind, cost=60 + 4 * frame_w,
                                   bounds="%s: every field symbolic in its wire domain; text length %s (content symbolic ASCII); %s"
-                                         % (variant, {"t0": "0", "t3": "min(3,width)", "t4": "4", "tf": "full width", }.get(tc, "n/a (SMALL sub-type %s)" % tc[1:]),
+                                         % (variant, {"t0": "0", "t3": "min(3,width)", "t4": "4", "tf": "full width", "tc": "min(3,width), CONTENT concrete (\"abc\")", }.get(tc, "n/a (SMALL sub-type %s)" % tc[1:]),
                                             "element count %s" % cnt if cnt is not None else "no counted part"),
                                   functions=["<insim::Packet as BinWrite>::write_options", "<%s as BinWrite>::write_options" % T, "<%s as BinRead>::read_options" % T]))
         if variant == "Mal":
@@ -997,6 +1010,7 @@ def generate(repo):
                        "        kani::cover!(true, \"MAL with one id decoded\");\n"
                        "    }\n    std::mem::forget(r);\n}\n")
             index.append(dict(name="c03_mal_n1_encodable", prop="C03", tier="quick", unwind=20, cost=80,
+                              fallback_inputs=[[[0]] * 10, [[0], [1], [0], [0], [0], [0], [88], [70], [71], [0]], [[255]] * 10],
                               bounds="IS_MAL body with NumM = 1 and every other byte symbolic (10 bytes)",
                               functions=["<insim::insim::Mal as BinRead>::read_options", "indexmap::IndexSet::insert"]))
         # ---- Codec::encode wiring for this kind: Default payload (concrete), both modes (symbolic)
@@ -1060,6 +1074,8 @@ def generate(repo):
                      "#[kani::stub(insim_core::string::codepages::to_lossy_string, stub_to_lossy_string)]\n"
                      "#[kani::stub(insim_core::string::codepages::to_lossy_bytes, stub_to_lossy_bytes)]\n"
                      "#[kani::stub(std::hash::RandomState::new, stub_random_state)]\n")
+            if variant == "Mso":
+                stubs = stubs.replace("#[kani::stub(alloc::fmt::format, stub_format)]\n", "")
             out.append("#[kani::proof]\n#[kani::unwind(%d)]\n%sfn c04_%s_body() {\n"
                        "    let mut img: [u8; %d] = kani::any();\n%s"
                        "    let mut c = Cursor::new(&img[..]);\n"
@@ -1082,12 +1098,13 @@ def generate(repo):
                        "        std::mem::forget(e); std::mem::forget(pk);\n"
                        "    } else { std::mem::forget(r); }\n}\n" % (unwind, stubs, tag, w, fix, T, w + 16, variant))
             tier = "quick" if (variant in QUICK_KINDS and cnt in (None, 1)) else "thorough"
-            index.append(dict(name="c04_%s_body" % tag, prop="C04", tier=tier, unwind=unwind, cost=40 + 3 * w,
+            fb = [[[0]] * w, [[255]] * w, [[0x41]] * w, [[(j + 1) & 255] for j in range(w)]]
+            index.append(dict(name="c04_%s_body" % tag, prop="C04", tier=tier, unwind=unwind, cost=40 + 3 * w, fallback_inputs=fb,
                               bounds="%s: arbitrary %d-byte body%s" % (variant, w, "" if cnt is None else ", count byte = %d" % cnt),
                               functions=["<%s as BinRead>::read_options" % T]))
             has_text_any = any(d[0] in ("str", "strv") for d in descs) or "HostInfo" in str(descs)
             if not has_text_any:
-              index.append(dict(name="c03_%s_reencode" % tag, prop="C03", tier=tier, unwind=unwind, cost=60 + 4 * w,
+              index.append(dict(name="c03_%s_reencode" % tag, prop="C03", tier=tier, fallback_inputs=fb, unwind=unwind, cost=60 + 4 * w,
                               bounds="%s: arbitrary %d-byte body%s, decoded value re-encoded in both modes" % (variant, w, "" if cnt is None else ", count byte = %d" % cnt),
                               functions=["<%s as BinRead>::read_options" % T, "<insim::Packet as BinWrite>::write_options"]))
     return "".join(out), index
@@ -1105,7 +1122,8 @@ def harness_index(H):
             print("spec/harness out of date: %s" % e, file=sys.stderr)
             raise SystemExit(2)
     return [H(e["name"], "gen_packets", e["prop"], tier=e["tier"], unwind=e["unwind"], cost=e["cost"], bounds=e["bounds"],
-              functions=e["functions"], timeout=900, allowed_fail=e.get("allowed_fail")) for e in _CACHE[repo]]
+              functions=e["functions"], timeout=900, allowed_fail=e.get("allowed_fail"), fallback_inputs=e.get("fallback_inputs", ()))
+            for e in _CACHE[repo]]
 
 
 if __name__ == "__main__":
